@@ -397,7 +397,9 @@ pub fn check_quiescent_accounting(sut: &Sut, context: &str, counts: &mut Counts,
     let sum: i64 = snapshot.charged.iter().map(|e| e.3).sum();
     let mut ok = true;
     let mut fail = |signature: &str, detail: String| {
-        findings.push(Finding { props: vec!["C05"], signature: signature.to_string(), detail, witness: witness.clone(), inconclusive: false });
+        // in the sweeper-race scenarios keys leave through the sweeper: weight that stays behind there was "not released" by a sweep (C10)
+        let props: Vec<&'static str> = if context.starts_with("update-sweep") || context.starts_with("sweep-") { vec!["C05", "C10"] } else { vec!["C05"] };
+        findings.push(Finding { props, signature: signature.to_string(), detail, witness: witness.clone(), inconclusive: false });
     };
     if sum != snapshot.weight_used {
         fail(&format!("C05/total-differs-from-sum-of-charged/{}", context), format!("total weight used {} but the charged weights sum to {} ({})", snapshot.weight_used, sum, context));
@@ -1003,7 +1005,7 @@ fn run_update_sweep(focus: &'static str, seed: u64, index: u64) -> CaseOut {
                 let total = sut.cache.total_weight_used();
                 let held = sut.snapshot().stored.len();
                 if total != 0 || held != 0 {
-                    findings.push(Finding { props: vec!["C05", "C01"], signature: format!("C05/weight-left-after-deleting-every-key/{}", context),
+                    findings.push(Finding { props: vec!["C05", "C01", "C10"], signature: format!("C05/weight-left-after-deleting-every-key/{}", context),
                         detail: format!("after the race every key was deleted (acknowledged), yet total_weight_used() is {} and {} entries are held", total, held), witness: witness(&all), inconclusive: false });
                 }
                 counts.inc("delete_everything_checks");
@@ -1557,6 +1559,7 @@ pub fn run(args: &Args) -> Shard {
             "bare" => crate::conc2::run_bare(focus, seed, index, args),
             "estimate" => crate::conc2::run_estimate(focus, seed, index),
             "release" => crate::conc2::run_release(focus, seed, index),
+            "fanout" => crate::conc2::run_fanout(focus, seed, index),
             other => { eprintln!("unknown scenario {}", other); std::process::exit(2); }
         };
         shard.case(out.signature, out.nontrivial);
